@@ -44,6 +44,8 @@ class CallMixin:
             raise _Raise(self.make_exc("builtins.AttributeError"), self.cur_where)
         if isinstance(base, RefV):
             return self.ref_attr(base, attr)
+        if isinstance(base, Sym) and base.op == "regex" and attr == "pattern":
+            return Const(base.args[0])
         if isinstance(base, Sym) and base.op == "super":
             obj, after = base.args
             mro = self.repo.mro(obj.cls) if isinstance(obj, ObjV) else []
@@ -463,6 +465,21 @@ class CallMixin:
         if isinstance(func, RefV):
             return self.call_ref(func, args, kwargs, module, node, env)
         if isinstance(func, Sym):
+            if func.op == "partial":
+                f0, a0, kw0 = func.args
+                kw = dict(kw0 or ())
+                kw.update(kwargs)
+                return self.call_v(f0, list(a0) + list(args), kw, module, node, env)
+            if func.op == "attrgetter" and len(args) == 1 and not kwargs:
+                v = args[0]
+                for part in func.args[0].split("."):
+                    v = self.getattr_v(self.resolve_alt(v), part, module, node)
+                return v
+            if func.op == "itemgetter" and len(args) == 1 and not kwargs:
+                return self.getitem(self.resolve_alt(args[0]), func.args[0], module, node)
+            if func.op == "methodcaller" and len(args) == 1 and not kwargs:
+                m = self.getattr_v(self.resolve_alt(args[0]), func.args[0], module, node)
+                return self.call_v(m, list(func.args[1]), dict(func.args[2] or ()), module, node, env)
             if func.op == "attr" and func.args[1] == "get" and len(args) in (1, 2) and not kwargs and isinstance(func.args[0], Sym) \
                     and func.args[0].op == "cfg":
                 # <mapping attribute of self>.get(k[, default]): the same two cases as `m[k] if k in m else default`
@@ -654,6 +671,28 @@ class CallMixin:
             return Const(not self.truthy(args[0], "operator.not_"))
         if q in ("functools.wraps", "functools.update_wrapper"):
             return RefV("builtins.__identity__")
+        if q == "functools.partial" and args:
+            return Sym("partial", args[0], tuple(args[1:]), _kw(kwargs))
+        if q in ("operator.attrgetter", "_operator.attrgetter") and len(args) == 1 and isinstance(args[0], Const) and isinstance(args[0].v, str):
+            return Sym("attrgetter", args[0].v)
+        if q in ("operator.itemgetter", "_operator.itemgetter") and len(args) == 1:
+            return Sym("itemgetter", args[0])
+        if q in ("operator.methodcaller", "_operator.methodcaller") and args and isinstance(args[0], Const) and isinstance(args[0].v, str):
+            return Sym("methodcaller", args[0].v, tuple(args[1:]), _kw(kwargs))
+        if q in ("itertools.chain", "itertools.chain.from_iterable"):
+            seqs = list(args)
+            if q.endswith("from_iterable") and len(args) == 1:
+                inner = self.concrete_items(self.resolve_alt(args[0]))
+                seqs = inner if inner is not None else None
+            if seqs is not None:
+                parts = [self.concrete_items(self.resolve_alt(x)) for x in seqs]
+                if all(p is not None for p in parts):
+                    return PyList([x for p in parts for x in p])
+                out = PyList([])
+                out.created_in = self._frame_id()  # type: ignore[attr-defined]
+                for x in seqs:
+                    self.list_extend(out, self.resolve_alt(x))
+                return out
         if q in ("functools.reduce", "_functools.reduce") and len(args) in (2, 3) and not kwargs:
             # left fold: acc = f(acc, item) for every item (abstract iterables: the loop abstraction of `for`)
             f, it = args[0], self.resolve_alt(args[1])
@@ -753,7 +792,61 @@ class CallMixin:
                 self.call_function(r[0].module, r[1], [obj] + list(args), kwargs, r[0].qual)
             except _Raise:
                 raise
+        elif r is None and self._is_dataclass(q):
+            self._dataclass_init(q, obj, args, kwargs, module)
         return obj
+
+    def _is_dataclass(self, q: str) -> bool:
+        ci = self.repo.classes.get(q)
+        if ci is None:
+            return False
+        for d in ci.node.decorator_list:
+            t = ast.unparse(d.func if isinstance(d, ast.Call) else d)
+            if t.split(".")[-1] == "dataclass":
+                return True
+        return False
+
+    def _dataclass_init(self, q: str, obj: ObjV, args, kwargs, module):
+        """The generated __init__ of an in-repo dataclass: annotated class-level names in MRO order, defaults from the class body."""
+        fields: List[Tuple[str, Optional[ast.expr], Any]] = []
+        for cq in reversed(self.repo.mro(q)):
+            ci = self.repo.classes.get(cq)
+            if ci is None or not self._is_dataclass(cq):
+                continue
+            for st in ci.node.body:
+                if isinstance(st, ast.AnnAssign) and isinstance(st.target, ast.Name):
+                    ann = ast.unparse(st.annotation)
+                    if ann.startswith("ClassVar") or ann.startswith("typing.ClassVar"):
+                        continue
+                    fields = [f for f in fields if f[0] != st.target.id] + [(st.target.id, st.value, ci)]
+        pos = list(args)
+        kw = {k: v for k, v in kwargs.items() if k != "**"}
+        if len(pos) > len(fields):
+            self.may_raise("builtins.TypeError", f"{q.rsplit('.', 1)[-1]}() takes {len(fields)} fields", definite=True)
+            raise _Raise(self.make_exc("builtins.TypeError"), self.cur_where)
+        for i, (name, default, ci) in enumerate(fields):
+            if i < len(pos):
+                obj.attrs[name] = pos[i]
+            elif name in kw:
+                obj.attrs[name] = kw.pop(name)
+            elif default is not None:
+                dv = self.eval(default, {}, ci.module)
+                if isinstance(dv, Sym) and dv.op == "call" and isinstance(dv.args[0], RefV) and dv.args[0].qual.endswith("dataclasses.field"):
+                    dkw = dict(dv.args[2] or ())
+                    if "default" in dkw:
+                        dv = dkw["default"]
+                    elif "default_factory" in dkw:
+                        dv = self.call_v(dkw["default_factory"], [], {}, ci.module, None)
+                obj.attrs[name] = dv
+            else:
+                self.may_raise("builtins.TypeError", f"{q.rsplit('.', 1)[-1]}() missing {name}", definite=True)
+                raise _Raise(self.make_exc("builtins.TypeError"), self.cur_where)
+        if kw:
+            self.may_raise("builtins.TypeError", f"{q.rsplit('.', 1)[-1]}() got an unexpected keyword", definite=True)
+            raise _Raise(self.make_exc("builtins.TypeError"), self.cur_where)
+        post = self.repo.lookup_method(q, "__post_init__")
+        if post is not None and len(self.stack) < self.inline_depth:
+            self.call_function(post[0].module, post[1], [obj], {}, post[0].qual)
 
     # ------------------------------------------------------------------------------------
     # builtins
@@ -853,6 +946,16 @@ class CallMixin:
                     return AbsList(v.elem, self.list_minlen(v))
                 return Sym("tupleof", v)
             return Sym("call", RefV("builtins." + name), tuple(a), ())
+        if name == "str.maketrans" and len(a) == 1 and isinstance(a[0], PyDict) and not a[0].opaque_keys:
+            pairs = []
+            for (tag, k), v in a[0].items.items():
+                if tag == "c" and isinstance(k, str) and len(k) == 1 and isinstance(v, Const) and isinstance(v.v, str):
+                    pairs.append((k, v.v))
+                else:
+                    pairs = None
+                    break
+            if pairs is not None:
+                return Sym("transtable", tuple(pairs))
         if name == "dict.fromkeys" and a:
             from .interp_expr import dict_key
             keys = self.concrete_items(self.resolve_alt(a[0]))
@@ -871,6 +974,11 @@ class CallMixin:
             if a and isinstance(a[0], PyDict):
                 d.items.update(a[0].items)
                 d.opaque_keys.extend(a[0].opaque_keys)
+            elif a and isinstance(self.resolve_alt(a[0]), (MapV, AbsList, ListV)) and isinstance(self.resolve_alt(a[0]).elem, PyTuple) \
+                    and len(self.resolve_alt(a[0]).elem.items) == 2:
+                # dict(<pairs produced by a comprehension over an abstract iterable>): one symbolic entry, as a dict comprehension gives
+                k, v = self.resolve_alt(a[0]).elem.items
+                d.opaque_keys.append((k, v))
             elif a:
                 pairs = self.concrete_items(self.resolve_alt(a[0]))
                 ok = pairs is not None
@@ -1141,6 +1249,16 @@ class CallMixin:
             if isinstance(seq, (MapV, ListV, AbsList)):
                 return Str([("join", sep, seq.elem, seq.over if isinstance(seq, MapV) else seq)])
             return Str([("join", sep, Sym("elemof", seq), seq)])
+        if name == "translate" and len(a) == 1 and isinstance(a[0], Sym) and a[0].op == "transtable":
+            pairs = a[0].args[0]
+            # a simultaneous single-character substitution equals the chain of replaces in table order when no replacement
+            # text contains a character that a later step would rewrite
+            independent = all(pairs[j][0] not in pairs[i][1] for i in range(len(pairs)) for j in range(i + 1, len(pairs)))
+            if independent:
+                s2 = Str(to_str_parts(base, tuple(("replace", k, r) for k, r in pairs)))
+            else:
+                s2 = Str(to_str_parts(base, (("translate", repr(pairs)),)))
+            return Const(s2.const()) if s2.is_const() else s2
         tr = None
         if name == "replace" and len(a) >= 2:
             tr = ("replace", a[0].v if isinstance(a[0], Const) else _describe(a[0]), a[1].v if isinstance(a[1], Const) else _describe(a[1]))
